@@ -41,8 +41,9 @@ THEOREMS = {
     'C03_builtin_text_length_spec': 'with C12_len_spec: text.length$ pushes the reference text length (braces not counted, special character once)',
     'C03_builtin_text_prefix': '[model wiring] s n text.prefix$ pushes the MODEL function bibtexPrefix s n (real claim: C03_builtin_text_prefix_spec); fewer than two values -> BibTeXError whatever they are; non-integer n -> TypeError; n <= 0 -> "" whatever s; n > 0 and non-string s -> TypeError',
     'C03_builtin_text_prefix_spec': 'with C12_prefix_len / C12_prefix_nonpos: the pushed prefix has text length min(n, len) for n >= 0 and is empty for n <= 0',
-    'C03_builtin_purify_width_num_names': '[model wiring] purify$ / width$ / num.names$ push the MODEL functions bibtexPurify / bibtexWidthStd (regenerated width table) / length of splitNameList: no independent value spec - purify$: only C03_builtin_purify_spec; num.names$: C03_builtin_num_names_spec; width$: correspondence check only',
+    'C03_builtin_purify_width_num_names': '[model wiring] purify$ / width$ / num.names$ push the MODEL functions bibtexPurify / bibtexWidthStd (regenerated width table) / length of splitNameList: no independent value spec in this equation - purify$: only C03_builtin_purify_spec; num.names$: C03_builtin_num_names_spec; width$: C03_builtin_width_spec',
     'C03_builtin_purify_spec': 'PARTIAL, with C12: a purified string consists of letters, digits and blanks and purify$ is idempotent on it - the VALUE of purify$ is not specified independently (model function bibtexPurify; correspondence check)',
+    'C03_builtin_width_spec': 'width$ "takes the literal literally ... except that special characters are handled specially": for every string within 100 nesting levels width$ pushes the scanner-free one-pass width (Spec.widthOnePass): every character outside a special character counts with its own width, braces and backslashes included; a special character is a { at brace level 0 directly followed by a backslash, nothing else (repair C03-2); without special character: the sum of the character widths. The TEXT of a special character is measured by pybtex\'s rule (finding C03-width-special-char-contents)',
     'C03_builtin_num_names_spec': 'with the C01 characterisation of split_name_list (C01_split_names_spec): for a list written as n+1 names joined by n separators (any spelling of " and "; each name non-empty, brace-balanced, without a separator match at brace level 0) num.names$ pushes n+1',
     'C03_builtin_change_case': '[model wiring] change.case$ = the MODEL function changeCase in the mode selected by the lower-cased first character (t, l, u) - real claim: C03_builtin_change_case_spec; empty mode (also the integer 0) / other letter are BibTeXErrors raised before the string is used; other integers / objects as mode, a non-string s under a valid mode: TypeError; fewer than two values -> BibTeXError',
     'C03_builtin_change_case_spec': 'with C12_case_letters, ONLY for strings whose special characters are closed (specialsClosed): change.case$ changes nothing but the case of letters and keeps the length',
@@ -100,6 +101,8 @@ RULE = ('well-typed straight-line programs: every sequence of up to the tier len
         'REVERSE / SORT, probes that EXECUTE runs outside any entry, while$ whose predicate leaves negative integers, SORT on keys that differ '
         'in letter case only / are equal / empty / never assigned, command names in other '
         'letter cases, a database delivered by another reader (bib_format=YAML) with person fields; '
+        'family width: "<s>" width$ for strings with ordinary groups that contain backslashes, special characters of every shape (also the 13 foreign '
+        'characters), unclosed groups and stray braces, in contexts, pairs and random strings over {a M blank { } \\ {\\ \' . 1 - ~ ...}; '
         'non-trivial = program with at least one built-in; distinct by program text')
 TRUSTED = ['a value pushed by \'name is modelled as a reference by name (differs from the code only when a variable is re-declared while '
            'such a reference is on the stack; never generated)',
@@ -108,6 +111,9 @@ TRUSTED = ['a value pushed by \'name is modelled as a reference by name (differs
            'the .bst text is parsed by the C15 model, the .bib text by the C01 model with person_fields=[] and the MACRO table',
            'family alt-reader: what the YAML reader delivers (entries in file order with their Person objects, preamble) is an input of the '
            'semantics (read off the real reader), as for C06',
+           'the oracle clause width_as_bibtex compares width$ with bibtex_x_width, a statement-by-statement transliteration of bibtex.web\'s x_width in '
+           'the harness (over pybtex\'s width table; the five ligature widths 500 / 722 / 778 / 903 / 1014 as in bibtex.web), independent of pybtex\'s scanner and of '
+           'the Lean model; a difference that lies only in what the text of a special character adds is the recorded finding C03-width-special-char-contents',
            'St.trace (the list of write$ / newline$ calls executed) is a ghost component of the model state: nothing in the model reads it, '
            'the driver does not print it; it is the vocabulary of C03_output / C03_trace']
 ASSUMPTIONS = ['the output is pinned for well-typed programs (Python raises TypeError/AttributeError where BibTeX prints a message); on ill-typed '
@@ -118,6 +124,8 @@ ASSUMPTIONS = ['the output is pinned for well-typed programs (Python raises Type
                'model stops with an internal error marked unmodelled: (C03_builtin_int_to_chr) and the check compares the class UNMODELLED only',
                'a program has at most one READ (format_from_strings closes its StringIO inputs: a second READ raises ValueError there, the '
                'model reads again)',
+               'the model follows /repo WITH the proposed fix C03-2 (proposed_fixes/C03-2.diff): width$ takes a backslash for the text of a special '
+               'character only directly behind the brace that opens the group; on a tree without it the clause width_as_bibtex reports "{x\\y}" width$',
                'the model follows /repo WITH the proposed fix C03-1 (proposed_fixes/C03-1.diff): no entry is current outside ITERATE / '
                'REVERSE; on a tree without it the clause execute_outside_entry reports the EXECUTE-after-ITERATE defect']
 
@@ -350,10 +358,121 @@ def execute_scope_clause(case, io):
     return []
 
 
+# ----------------------------------------------------------------------------------------------
+# width$ "as documented": x_width of bibtex.web (the built-in width$; module "Add up the char_widths in this string" with
+# "Determine the width of this special character" and "... of this accented or foreign character"), transliterated statement by
+# statement.  Independent of pybtex's scanner (scan_bibtex_string) and of the Lean model.  "This function takes the literal
+# literally; that is, it assumes each character in the string is to be printed as is, regardless of whether the character has a
+# special meaning to TeX, except that special characters (even without their right braces) are handled specially."  A special
+# character is a left brace at brace level 0 that is immediately followed by a backslash - nothing else.  Inside it braces, control
+# sequences and the white space behind a control sequence have no width, the 13 accented / foreign characters have the width of
+# their first letter resp. of the ligature.  The width table is pybtex's (a parameter; bibtex.web has cmr10's).
+SS_WIDTH, AE_WIDTH, OE_WIDTH, UPPER_AE_WIDTH, UPPER_OE_WIDTH = 500, 722, 778, 903, 1014
+WIDTH_FOREIGN = ('i', 'j', 'oe', 'OE', 'ae', 'AE', 'aa', 'AA', 'o', 'O', 'l', 'L', 'ss')
+WIDTH_LIGATURE = {'ss': SS_WIDTH, 'ae': AE_WIDTH, 'oe': OE_WIDTH, 'AE': UPPER_AE_WIDTH, 'OE': UPPER_OE_WIDTH}
+
+
+def _lex_alpha(c):
+    return 'a' <= c <= 'z' or 'A' <= c <= 'Z'
+
+
+def _char_width(c):
+    from pybtex.charwidths import charwidths
+    return charwidths.get(c, 0)
+
+
+def bibtex_x_width(s, pybtex_special_contents=False):
+    """x_width.  pybtex_special_contents=True: the same pass, but a special character contributes what pybtex documents for it
+    (bibtex_width doctests): every character of its text behind the backslash and the character after it, braces excepted."""
+    n = len(s)
+    width = 0
+    level = 0                                                   # brace_level
+    i = 0                                                       # ex_buf_ptr
+    while i < n:
+        if s[i] == '{':
+            level += 1
+            if level == 1 and i + 1 < n and s[i + 1] == '\\':   # a special character
+                if pybtex_special_contents:
+                    j = i + 1
+                    while j < n and level > 0:
+                        if s[j] == '{':
+                            level += 1
+                        elif s[j] == '}':
+                            level -= 1
+                        j += 1
+                    body = s[i + 1:j - 1] if level == 0 else s[i + 1:j]
+                    width += sum(_char_width(c) for c in body[2:] if c not in '{}')
+                    level = 0
+                    i = j - 1                                   # (unskip: the main loop steps over the last character)
+                else:
+                    i += 1                                      # skip over the left brace
+                    while i < n and level > 0:
+                        i += 1                                  # skip over the backslash
+                        x = i
+                        while i < n and _lex_alpha(s[i]):
+                            i += 1                              # this scans the control sequence
+                        if i < n and i == x:
+                            i += 1                              # this skips a nonalpha control sequence
+                        else:
+                            cs = s[x:i]
+                            if cs in WIDTH_FOREIGN:             # the width of this accented or foreign character
+                                width += WIDTH_LIGATURE[cs] if cs in WIDTH_LIGATURE else _char_width(s[x])
+                        while i < n and s[i] in ' \t':
+                            i += 1                              # this skips following white space
+                        while i < n and level > 0 and s[i] != '\\':
+                            if s[i] == '}':
+                                level -= 1
+                            elif s[i] == '{':
+                                level += 1
+                            else:
+                                width += _char_width(s[i])
+                            i += 1
+                    i -= 1                                      # unskip the right brace
+            else:
+                width += _char_width('{')
+        elif s[i] == '}':
+            if level > 0:                                       # decr_brace_level (a complaint at level 0, the width is added all the same)
+                level -= 1
+            width += _char_width('}')
+        else:
+            width += _char_width(s[i])
+        i += 1
+    return width
+
+
+def width_clause(case, io):
+    """family width: the program prints `"<s>" width$` for the string case['width_of']; the number printed has to be x_width(s).
+    A difference that lies only in what the TEXT of a special character contributes (pybtex: every character behind the backslash and
+    the character after it; BibTeX: control sequences and the white space behind them nothing, the 13 foreign characters their own
+    width) is the recorded finding C03-width-special-char-contents and is tagged as such."""
+    if 'width_of' not in case or 'error' in io:
+        return []
+    s = case['width_of']
+    line = io.get('bbl', '').split('\n')[0]
+    try:
+        got = int(line)
+    except ValueError:
+        return ['width_as_bibtex: "%s" width$ printed %r, not an integer' % (s, line)]
+    want = bibtex_x_width(s)
+    if got == want:
+        return []
+    if got == bibtex_x_width(s, pybtex_special_contents=True):
+        return ['width_as_bibtex: "%s" width$ = %d, BibTeX\'s x_width gives %d [special character contents]' % (s, got, want)]
+    return ['width_as_bibtex: "%s" width$ = %d, BibTeX\'s x_width gives %d (every character outside a special character - a left '
+            'brace at brace level 0 directly followed by a backslash - counts with its own width, braces and backslashes included)' % (s, got, want)]
+
+
+KNOWN_MATCHERS = {
+    'C03-width-special-char-contents': lambda case, io, f: (
+        f.startswith('width_as_bibtex:') and f.endswith('[special character contents]') and 'width_of' in case and 'error' not in io
+        and io.get('bbl', '').split('\n')[0] == str(bibtex_x_width(case['width_of'], pybtex_special_contents=True))),
+}
+
+
 def oracle(case, io, reply):
     """C03 pins the output: for a well-typed program of the generated family the engine must produce what the semantics
     (the Lean model, tied to the documented built-ins by the C03 theorems) defines."""
-    fails = execute_scope_clause(case, io)
+    fails = execute_scope_clause(case, io) + width_clause(case, io)
     mo = model_out(case, reply)
     if ('error' in io and io['error'][0] == 'OUT-OF-FUEL') or ('error' in mo and mo['error'][0] == 'OUT-OF-FUEL'):
         return fails
@@ -997,8 +1116,46 @@ def format_name_family():
     return out
 
 
+# ---- width$ -----------------------------------------------------------------------------------------------------------------------
+# ordinary groups (the brace that opens them is not followed by a backslash) with a backslash further in, special characters whose
+# text pybtex and BibTeX measure alike (one non-letter or one-letter control sequence directly followed by the letters) and others,
+# unclosed groups, stray braces
+WIDTH_PIECES = ['{x\\y}', '{x\\}', '{xy\\}', '{x \\y z}', '{x{\\y}}', '{{\\y}}', '{x\\y\\z}', '{-\\o}', '{x}{\\y}', '{x\\y}{\\\'z}', '{x{y\\z}w}',
+                "{\\'c}", '{\\"o}', "{\\'c{}}", "{\\'c{d}}", '{\\H{o}}', '{\\aa}', '{\\AA}', '{\\}', '{\\a}{\\b}',
+                '{\\TeX}', '{\\TeX book}', '{\\v s}', '{\\ss}', '{\\ae}', '{\\oe}', '{\\AE}', '{\\OE}', '{\\o}', '{\\O}', '{\\i}', '{\\j}', '{\\l}', '{\\L}',
+                "{\\'{\\i}}", '{\\c c}', '{\\relax}', '{\\relax x}', "{\\'\\i}",
+                '{x\\y', '{x{\\y', '{\\x', "{\\'c{", '{', '}', '}x{', '}{x\\y}', '{x\\y}}', '{}', '{{}}', 'a\\b', '\\', 'a b', 'x-y~z', '']
+WIDTH_CONTEXT = ['%s', 'a%sb', 'M %s.', '{q}%s', '%s{q}', "{\\'e}%s", "%s{\\'e}", '{%s}', 'x{y%sz}w', '%s%s']
+
+
+def width_program(s):
+    src = HEADER + 'FUNCTION {main} { "%s" width$ int.to.str$ write$ newline$ }\nREAD\nEXECUTE {main}\n' % s
+    return {'op': 'bstrun', 'bst': src, 'bibs': [BIB], 'citations': CITES, 'min_crossrefs': 2, 'family': 'width', 'welltyped': True, 'width_of': s}
+
+
+def width_family(rng, nrandom):
+    seen = set()
+    out = []
+
+    def add(s):
+        if '"' in s or '\n' in s or s in seen:
+            return
+        seen.add(s)
+        out.append(width_program(s))
+    for piece in WIDTH_PIECES:
+        for ctx in WIDTH_CONTEXT:
+            add(ctx.replace('%s', piece))
+    for a in WIDTH_PIECES[:20]:
+        for b in WIDTH_PIECES[:20]:
+            add(a + b)
+    alphabet = ['a', 'M', ' ', '{', '}', '\\', '\\', '{\\', "{\\'", 'x', 'y', '.', '1', '-', '~', "'", '{x\\y}', "{\\'e}", '}{', '{{']
+    for _ in range(nrandom):
+        add(''.join(rng.choice(alphabet) for _ in range(rng.randint(1, 9))))
+    return out
+
+
 def gen_cases(tier, rng, info):
-    cases = list(while_family()) + format_name_family()      # first: its well-typed programs are the failing input to report for a change of the loop condition
+    cases = list(while_family()) + format_name_family() + width_family(rng, 400 if tier == 'quick' else 8000)      # first: its well-typed programs are the failing input to report for a change of the loop condition
     maxlen = 2 if tier == 'quick' else 3
     na = 0
     for body, types in assign_sequences(2 if tier == 'quick' else 3):
@@ -1093,7 +1250,9 @@ LEVEL_NOTE = ('Trusted: Lean kernel; axioms propext/Classical.choice/Quot.sound 
               'StableWrt, uniqueness), ITERATE / REVERSE (foldEntries), output (render / emit), scoping (Frame, CmdFrame), declarations (Declares, Fresh), '
               'empty$ (Blank), the add.period$ shapes, the citation order after READ (C03_read_order -> C05 Spec.resolved / present / dangling / missing), and '
               'through C12 / C11 / C19 / C01 for substring$, text.length$, text.prefix$ (length), purify$ (character range and idempotence ONLY), change.case$ '
-              '(closed special characters only), format.name$, newline$ on short lines, num.names$ on well-formed lists; width$ and the VALUE of purify$ are '
-              'specified by model functions only. All semantics is FUEL-INDEXED (the Eval judgements are "some fuel gives ok"): termination and sufficiency of '
+              '(closed special characters only), format.name$, newline$ on short lines, num.names$ on well-formed lists, width$ (C03_builtin_width_spec: the '
+              'scanner-free one-pass width, every character outside a special character counts as it is; the text of a special character by pybtex\'s rule - '
+              'recorded finding C03-width-special-char-contents, where BibTeX skips control sequences and knows the 13 foreign characters); the VALUE of purify$ is '
+              'specified by a model function only. All semantics is FUEL-INDEXED (the Eval judgements are "some fuel gives ok"): termination and sufficiency of '
               'the fuel are not claimed (C03_output assumes the run ends ok); C03_iterate_order / C03_reverse_order assume Ready s (established by READ: '
               'C03_ready) and a bound function name.')
